@@ -448,6 +448,15 @@ pub fn check_strict(
         detail: format!("a == b but hash(a) = {} and hash(b) = {}", ha.brief(), hb.brief()),
       });
     }
+    let ua = ans(&mut cold, &mut counters, 0, OpKind::UpdateHash);
+    let ub = ans(&mut cold, &mut counters, 1, OpKind::UpdateHash);
+    if ua != ub {
+      violations.push(Violation {
+        kind: "eq_without_equal_hash".into(),
+        op_class: "hash".into(),
+        detail: format!("a == b but update_hash(a) = {} and update_hash(b) = {}", ua.brief(), ub.brief()),
+      });
+    }
     let eq_ac = ans(&mut cold, &mut counters, 0, OpKind::Eq { other: 2 });
     let eq_ca = ans(&mut cold, &mut counters, 2, OpKind::Eq { other: 0 });
     if eq_ac != eq_ca {
@@ -1208,7 +1217,8 @@ pub fn gen_c14(rng: &mut Rng) -> Scenario {
       }
       let kind = match rng.below(100) {
         0..=14 => OpKind::Eq { other: *rng.pick(&[0usize, 1, 1, 2]) },
-        15..=24 => OpKind::Hash,
+        15..=21 => OpKind::Hash,
+        22..=24 => OpKind::UpdateHash,
         25..=31 => OpKind::EqClone,
         32..=38 => OpKind::Lookup { probe: *rng.pick(&[0usize, 1, 1, 2]) },
         39..=44 => OpKind::CloneThen { then: Box::new(OpKind::Hash) },
